@@ -1021,7 +1021,12 @@ func (r *Raft) sendAppendEntriesToPeers() {
 		r.tryApplyReadOnlyOperations(readSequence)
 	}
 
-	numResponses := 1
+	// This node only counts toward the confirmation of its leadership if it is a voting member:
+	// a leader that has been demoted to a non-voting member keeps leading for the time being.
+	numResponses := 0
+	if r.isVoter(r.id) {
+		numResponses = 1
+	}
 	for id, address := range r.configuration.Members {
 		if id != r.id {
 			go r.sendAppendEntries(id, address, &numResponses, readSequence)
@@ -1801,8 +1806,13 @@ func (r *Raft) commitLoop() {
 			}
 
 			// Check whether the majority of nodes in the cluster agree on the entry.
-			// If they do, it is safe to commit.
-			matches := 1
+			// If they do, it is safe to commit. Only voting members count, and that
+			// includes this node: a leader that has been demoted to a non-voting
+			// member must not count itself.
+			matches := 0
+			if r.isVoter(r.id) {
+				matches = 1
+			}
 			for id, follower := range r.followers {
 				// Ignore this node and any nodes which are not voting members.
 				if id == r.id || !r.configuration.IsVoter[id] {
